@@ -84,7 +84,7 @@ def tree_hash(name=None):
 
 
 _LEDGER_DIRS = ("harness/drive/", "harness/pgmodel/", "harness/stack/", "harness/deps/", "harness/cmd/vh-ledger/")
-_LEDGER_SPECS = ("Ledger", "TraceLedger", "MC_Ledger", "LedgerPG", "MC_LedgerPG", "AsyncBlocks")
+_LEDGER_SPECS = ("Ledger", "TraceLedger", "MC_Ledger", "LedgerPG", "MC_LedgerPG", "AsyncBlocks", "ImportLock")
 _LEDGER_FILES = ("harness/go.mod", "lib/vlib.py", "lib/tlcrun.py", "checks/ledger_common.py", "checks/conc_common.py")
 
 
